@@ -1,5 +1,212 @@
-(* C01 — placeholder; the theorems are added as BT/*Proofs.v land *)
+(* C01 — Bigtable: reads reflect exactly the mutations applied (data-model equivalence).
+   Only statements here; the Layer-B spec is BT/CellSpec.v, proofs are in BT/CellProofs.v and
+   BT/MutateProofs.v. *)
 From Coq Require Import List NArith ZArith Bool.
-From Emu.BT Require Import Types Mutate Server.
-Example C01_model_runs : snd (step nil (mkCall (BGetTable nil) 0%Z nil)) = fail cNotFound.
-Proof. reflexivity. Qed.
+Import ListNotations.
+From Emu.Common Require Import Bytes Str StrProofs.
+From Emu.Gen Require Import Consts.
+From Emu.BT Require Import Types Mutate Server CellSpec CellProofs MutateProofs.
+Local Open Scope Z_scope.
+
+(* appendOrReplaceCell: keeps the column strictly descending and is a point update of the map *)
+Theorem C01_insert_cell_spec : forall cs n, desc cs ->
+  desc (insert_cell cs n)
+  /\ forall t, cell_lookup (insert_cell cs n) t = if t =? c_ts n then Some (c_val n) else cell_lookup cs t.
+Proof. exact insert_cell_spec. Qed.
+Print Assumptions C01_insert_cell_spec.
+
+(* DeleteFromColumn's two sort.Search indices remove exactly the half-open interval [s, e),
+   0 = unbounded on that side, for every descending column *)
+Theorem C01_delete_range_halfopen : forall cs s e, desc cs -> 0 <= s -> 0 <= e ->
+  delete_range cs s e = filter (fun c => negb (in_del_range s e (c_ts c))) cs
+  /\ desc (delete_range cs s e)
+  /\ (forall c, In c (delete_range cs s e) <-> In c cs /\ in_del_range s e (c_ts c) = false)
+  /\ (forall t, cell_lookup (delete_range cs s e) t = if in_del_range s e t then None else cell_lookup cs t).
+Proof. exact delete_range_spec. Qed.
+Print Assumptions C01_delete_range_halfopen.
+
+(* reading the lower bound literally ("s <= ts" also for s = 0) is false of the code when a cell
+   has a negative timestamp: start 0 really is "unbounded below" *)
+Theorem C01_delete_range_literal_lower_bound_refuted :
+  exists cs s e, desc cs /\ 0 <= s /\ 0 <= e /\
+    delete_range cs s e <> filter (fun c => negb ((s <=? c_ts c) && ((e =? 0) || (c_ts c <? e)))) cs.
+Proof. exact delete_range_literal_lower_bound_refuted. Qed.
+Print Assumptions C01_delete_range_literal_lower_bound_refuted.
+
+(* one mutation: the code refines the cell-map spec, errors coincide *)
+Theorem C01_apply_mutation_refines : forall tf now fs m, fams_ok fs ->
+  match apply_mutation tf now fs m with
+  | Some fs' => fams_ok fs' /\ exists cm', spec_mutation tf now m (abs_fams fs) = Some cm' /\ cm_eq (abs_fams fs') cm'
+  | None => spec_mutation tf now m (abs_fams fs) = None
+  end.
+Proof. exact apply_mutation_refines. Qed.
+Print Assumptions C01_apply_mutation_refines.
+
+(* a request's mutation list, in order; the first invalid mutation fails the whole list *)
+Theorem C01_apply_mutations_refines : forall tf now ms fs, fams_ok fs ->
+  match apply_mutations tf now fs ms with
+  | Some fs' => fams_ok fs' /\ exists cm', spec_mutations tf now ms (abs_fams fs) = Some cm' /\ cm_eq (abs_fams fs') cm'
+  | None => spec_mutations tf now ms (abs_fams fs) = None
+  end.
+Proof. exact apply_mutations_refines. Qed.
+Print Assumptions C01_apply_mutations_refines.
+
+(* exactly the requests the API calls invalid are errors *)
+Theorem C01_invalid_iff : forall tf now m cm,
+  spec_mutation tf now m cm = None <->
+  match m with
+  | SetCell fam _ ts _ => known_family tf fam = false
+                          \/ valid_timestamp (if ts =? -1 then trunc_ms now else ts) = false
+  | DeleteFromColumn fam _ (Some (s, e)) => known_family tf fam = false \/ range_valid s e = false
+  | DeleteFromColumn fam _ None => known_family tf fam = false
+  | DeleteFromFamily fam => known_family tf fam = false
+  | DeleteFromRow => False
+  | MutUnset => True
+  end.
+Proof. exact spec_mutation_none_iff. Qed.
+Print Assumptions C01_invalid_iff.
+
+Theorem C01_valid_timestamp : forall ts,
+  valid_timestamp ts = true <-> btMinValidTs <= ts <= btMaxValidTs /\ (btTsGranularity | ts).
+Proof. exact valid_timestamp_iff. Qed.
+Print Assumptions C01_valid_timestamp.
+
+Theorem C01_valid_timestamp_concrete : forall ts,
+  valid_timestamp ts = true <-> 0 <= ts <= 9223372036854775000 /\ (1000 | ts).
+Proof. exact valid_timestamp_concrete. Qed.
+Print Assumptions C01_valid_timestamp_concrete.
+
+Theorem C01_range_valid : forall s e,
+  range_valid s e = true <->
+  valid_timestamp s = true /\ (valid_timestamp e = true \/ e = 0) /\ (e = 0 \/ s < e).
+Proof. exact range_valid_iff. Qed.
+Print Assumptions C01_range_valid.
+
+(* server-assigned timestamps *)
+Theorem C01_trunc_ms_multiple : forall now, now <> -1 -> (1000 | trunc_ms now).
+Proof. exact trunc_ms_multiple. Qed.
+Print Assumptions C01_trunc_ms_multiple.
+
+Theorem C01_server_time_truncated : forall tf now fs fam q v,
+  apply_mutation tf now fs (SetCell fam q (-1) v) = apply_mutation tf now fs (SetCell fam q (trunc_ms now) v)
+  /\ (fams_ok fs ->
+      match apply_mutation tf now fs (SetCell fam q (-1) v) with
+      | Some fs' => valid_timestamp (trunc_ms now) = true
+                    /\ (1000 | trunc_ms now)
+                    /\ abs_fams fs' fam q (trunc_ms now) = Some v
+                    /\ forall f q' t, (f, q', t) <> (fam, q, trunc_ms now) -> abs_fams fs' f q' t = abs_fams fs f q' t
+      | None => known_family tf fam = false \/ valid_timestamp (trunc_ms now) = false
+      end).
+Proof. exact server_time_truncated. Qed.
+Print Assumptions C01_server_time_truncated.
+
+(* scrubRow keeps the content (cells of families unknown to the table vanish) and produces the
+   stored form: each family once and known, columns ascending, no empty column or family *)
+Theorem C01_scrub_content : forall tf fs, fams_ok fs -> forall f q t,
+  abs_fams (scrub_fams tf fs) f q t = if known_family tf f then abs_fams fs f q t else None.
+Proof. exact scrub_content. Qed.
+Print Assumptions C01_scrub_content.
+
+Theorem C01_scrub_preserves_content : forall tf fs, fams_ok fs -> all_known tf fs ->
+  cm_eq (abs_fams (scrub_fams tf fs)) (abs_fams fs) /\ stored_ok tf (scrub_fams tf fs).
+Proof. exact scrub_preserves_content. Qed.
+Print Assumptions C01_scrub_preserves_content.
+
+Theorem C01_scrub_empty_iff : forall tf fs, all_known tf fs ->
+  (scrub_fams tf fs = [] <-> is_empty_fams fs = true).
+Proof. exact scrub_empty_iff. Qed.
+Print Assumptions C01_scrub_empty_iff.
+
+Theorem C01_is_empty_content : forall fs, fams_ok fs ->
+  (is_empty_fams fs = true <-> forall f q t, abs_fams fs f q t = None).
+Proof. exact is_empty_content. Qed.
+Print Assumptions C01_is_empty_content.
+
+Theorem C01_scrub_stored_id : forall tf fs, stored_ok tf fs -> scrub_fams tf fs = fs.
+Proof. exact scrub_stored_id. Qed.
+Print Assumptions C01_scrub_stored_id.
+
+(* the invariant, for ALL thirteen request kinds *)
+Theorem C01_step_preserves_server_ok : forall s c, server_ok s -> server_ok (fst (step s c)).
+Proof. exact step_preserves_server_ok. Qed.
+Print Assumptions C01_step_preserves_server_ok.
+
+Theorem C01_history : forall cs, server_ok (fst (run [] cs)).
+Proof. exact MutateProofs.C01_history. Qed.
+Print Assumptions C01_history.
+
+(* no stored row without a cell *)
+Theorem C01_row_absent_iff_empty : forall t key, table_ok t ->
+  (alookup key (t_rows t) = None <-> forall f q ts, abs_fams (get_row t key) f q ts = None).
+Proof. exact GcProofs.row_absent_iff_empty. Qed.
+Print Assumptions C01_row_absent_iff_empty.
+
+(* MutateRow: OK => the stored row's content is the spec's fold over the previous content, the row
+   is in stored form, every other row and table is untouched; not OK => nothing changed *)
+Theorem C01_mutate_row_then_get : forall s tbl key muts now coins, server_ok s ->
+  let '(s', rsp) := step s (mkCall (BMutateRow tbl key muts) now coins) in
+  if N.eqb (br_code rsp) cOK then
+    exists t t' cm',
+      alookup tbl s = Some t
+      /\ spec_mutations (t_fams t) now muts (abs_fams (get_row t key)) = Some cm'
+      /\ alookup tbl s' = Some t' /\ t_fams t' = t_fams t
+      /\ cm_eq (abs_fams (get_row t' key)) cm'
+      /\ stored_ok (t_fams t) (get_row t' key)
+      /\ (forall k, k <> key -> alookup k (t_rows t') = alookup k (t_rows t))
+      /\ (forall n, n <> tbl -> alookup n s' = alookup n s)
+  else
+    s' = s
+    /\ (alookup tbl s = None
+        \/ exists t, alookup tbl s = Some t
+                     /\ spec_mutations (t_fams t) now muts (abs_fams (get_row t key)) = None).
+Proof. exact mutate_row_then_get. Qed.
+Print Assumptions C01_mutate_row_then_get.
+
+(* MutateRows: per-entry status *)
+Theorem C01_mutate_rows_entry : forall now ta cs e, table_ok ta ->
+  let '(ta', cs') := mrows_step now (ta, cs) e in
+  match spec_mutations (t_fams ta) now (snd e) (abs_fams (get_row ta (fst e))) with
+  | Some cm' => cs' = cs ++ [cOK] /\ t_fams ta' = t_fams ta
+                /\ cm_eq (abs_fams (get_row ta' (fst e))) cm'
+                /\ (forall k, k <> fst e -> alookup k (t_rows ta') = alookup k (t_rows ta))
+  | None => cs' = cs ++ [cInternal] /\ ta' = ta
+  end.
+Proof. exact mrows_step_spec. Qed.
+Print Assumptions C01_mutate_rows_entry.
+
+(* non-vacuity: a concrete row meeting fams_ok, a valid and an invalid mutation list on it, the
+   scrubbed (stored) form; and a concrete history leading to a non-trivial server state that
+   satisfies server_ok, on which MutateRow succeeds and fails *)
+Example C01_nonvacuous_row :
+  let tf := [([102%N], None)] in
+  let fs := [mkFam [102%N] [mkCol [113%N] [mkCell 5000 [1%N] []; mkCell 3000 [2%N] []; mkCell 1000 [3%N] []]]] in
+  fams_ok fs
+  /\ apply_mutations tf 7777 fs [SetCell [102%N] [97%N] (-1) [9%N]; DeleteFromColumn [102%N] [113%N] (Some (3000, 5000))]
+     = Some [mkFam [102%N] [mkCol [113%N] [mkCell 5000 [1%N] []; mkCell 1000 [3%N] []];
+                            mkCol [97%N] [mkCell 7000 [9%N] []]]]
+  /\ scrub_fams tf [mkFam [102%N] [mkCol [113%N] [mkCell 5000 [1%N] []; mkCell 1000 [3%N] []];
+                                   mkCol [97%N] [mkCell 7000 [9%N] []]]]
+     = [mkFam [102%N] [mkCol [97%N] [mkCell 7000 [9%N] []];
+                       mkCol [113%N] [mkCell 5000 [1%N] []; mkCell 1000 [3%N] []]]]
+  /\ apply_mutations tf 7777 fs [SetCell [102%N] [97%N] 1500 [9%N]] = None.
+Proof. exact C01_example. Qed.
+
+Definition ex_tbl : bytes := [112; 47; 116; 97; 98; 108; 101; 115; 47; 116]%N.   (* "p/tables/t" *)
+Definition ex_history : list call :=
+  [ mkCall (BCreateTable [112%N] [116%N] [([102%N], Some (GMaxVersions 1))]) 0 [];
+    mkCall (BMutateRow ex_tbl [114%N] [SetCell [102%N] [113%N] (-1) [1%N]; SetCell [102%N] [97%N] 2000 [2%N]]) 5500 [];
+    mkCall (BReadModifyWrite ex_tbl [114%N] [RAppend [102%N] [113%N] [7%N]]) 9999 [];
+    mkCall (BMutateRow ex_tbl [115%N] [SetCell [103%N] [113%N] 1000 [1%N]]) 9999 [];
+    mkCall (BRunGC ex_tbl) 10000 [] ].
+
+Example C01_nonvacuous_history :
+  let s := fst (run [] ex_history) in
+  server_ok s
+  /\ map br_code (snd (run [] ex_history)) = [cOK; cOK; cOK; cUnknown; cOK]
+  /\ exists t, alookup ex_tbl s = Some t
+       /\ t_rows t = [([114%N], [mkFam [102%N] [mkCol [97%N] [mkCell 2000 [2%N] []];
+                                               mkCol [113%N] [mkCell 9000 [1%N; 7%N] []]]])].
+Proof.
+  split; [apply MutateProofs.C01_history|]. split; [vm_compute; reflexivity|].
+  eexists. split; vm_compute; reflexivity.
+Qed.
